@@ -24,6 +24,12 @@ CHECKS = {
   design_ref="DESIGN.md §3 C03",
   note="Trusted: the abstract model in internal/hist and the observation in internal/obs. Batches at the gdbi level contain only valid elements (callers validate first).",
   technique="model-based (stateful) property testing: exhaustive + rapid histories vs. abstract graph model"),
+ "C04": dict(
+  category="fault_enumeration",
+  text="Restart: mutation histories with a close+reopen at every position (exhaustive for short histories, random beyond) on a real Badger directory and on an in-memory ordered store re-wrapped by a fresh kvgraph; full observation vs. the abstract model after the reopen and after every later step. Crash: for every mutating call, EVERY top-level store write it issues (count learned by a dry run on a clone) is refused in turn together with all later ones; the surviving store is reopened and checked for index/adjacency consistency and presence of the acknowledged state.",
+  design_ref="DESIGN.md §3 C04",
+  note="Trusted: each top-level kvi write is atomic (stipulated by the property); internal/memkv is a faithful ordered map (it is C10's model); partially applied in-flight calls that keep the invariants are accepted.",
+  technique="fault injection by exhaustive crash-point enumeration over rapid-generated and enumerated histories, with a model-based consistency oracle"),
  "C05": dict(
   category="exploration",
   text="Method table enumerated from the generated service descriptors; every method x transport (real grpc.Server interceptor chain, in-process gateway clients) x 24 credential/policy scenarios exhaustively, plus random Casbin policies; spy handlers record whether the handler ran; a live GripServer level checks effects over gRPC and HTTP.",
@@ -36,6 +42,12 @@ CHECKS = {
   design_ref="DESIGN.md §3 C08",
   note="Trusted: the reference evaluator (internal/model/expr.go) and the list of cells it declares undocumented (not judged). Values limited to what structpb carries.",
   technique="property-based testing: exhaustive small-scope grid + rapid random trees vs. reference evaluator and metamorphic Boolean laws"),
+ "C13": dict(
+  category="exploration",
+  text="Each internal combinator (job serializer/deserializer pools, gripper ChannelMux alone and as deployed in TabularGraph.GetVertexChannel, LookupBatcher, DualProcessor, jump queue) is fed sequence-numbered items with lengths around every buffer/batch/worker size, generated producer/stage/consumer latency vectors and GOMAXPROCS in {1,2,16}; output sequence, round-trip equality, closure-after-input and goroutine release are checked; hangs are confirmed by a goroutine-dump quiescence detector, never by a bare timeout.",
+  design_ref="DESIGN.md §3 C13",
+  note="Schedules are sampled, not enumerated. Only inputs real callers can produce are fed (see harness/c13/findings/corrections.md).",
+  technique="property-based testing with generated latency schedules: sequence-preservation oracle + quiescence-based hang detection"),
  "C14": dict(
   category="exploration",
   text="(a) typing agreement of the core and Mongo compilers over every statement sequence to length 4 over an ~80-step alphabet plus random ones; (b) the emitted $match document, BSON round-tripped and evaluated by a small interpreter of MongoDB query semantics over scalar documents, vs. logic.MatchesHasExpression, over an exhaustive operator x key x argument x negation grid and random trees.",
